@@ -41,6 +41,7 @@ type Ctx struct {
 	floors   map[string]int // rule -> minimum number of obligations
 	ruleDesc map[string]string
 	curRule  string
+	touched  map[*ssa.Function]bool // functions resolved through c.Fn
 }
 
 // Rule registers the description of a rule and sets it as current.
@@ -92,6 +93,11 @@ func (c *Ctx) Fn(spec string) *ssa.Function {
 	f := c.P.Func(spec)
 	if f == nil {
 		c.add(Undecided, "anchor:"+spec, "", "anchor-unresolved: function "+q(spec)+" not found in the loaded program")
+	} else {
+		if c.touched == nil {
+			c.touched = map[*ssa.Function]bool{}
+		}
+		c.touched[f] = true
 	}
 	return f
 }
@@ -170,6 +176,7 @@ func runProperty(P *Prog, id, tier, verifDir string, loadSecs float64, extra map
 			}
 		}()
 		def.Run(c)
+		c.traversalRule()
 	}()
 	// instance floors: a rule matching fewer sites than confirmed by hand fails
 	count := map[string]int{}
